@@ -154,6 +154,45 @@ def _group_codecs(inst, scalars, acc, full):
                 "element": R.enc(R.mul(R.base(), scalars[-1]))})
 
 
+def mutable_carrier_run(inst, k1, k2, kind):
+    """decode k1*G from a mutable buffer (if the decoder takes one), let the caller reuse the buffer for k2*G, then encode again"""
+    R, g = inst.ref, inst.group
+    e1, e2 = R.enc(R.mul(R.base(), k1)), R.enc(R.mul(R.base(), k2))
+    buf = bytearray(e1)
+    carrier = buf if kind == "bytearray" else memoryview(buf)
+    d = T.observe(g.bytes_to_element, carrier)
+    if d[0] != "ok":
+        return ("refused", d[1])
+    first = T.observe(d[1].to_bytes)
+    buf[:] = e2
+    second = T.observe(d[1].to_bytes)
+    third = T.observe(lambda: g.bytes_to_element(e1).to_bytes())
+    same = T.observe(lambda: d[1] == g.bytes_to_element(e1))
+    return ("decoded", first, second, third, same, [type(x[1]).__name__ for x in (first, second) if x[0] == "ok"])
+
+
+def _mutable_carriers(inst, acc):
+    """an element decoded from a caller-owned buffer must not depend on what the caller does with the buffer afterwards"""
+    R = inst.ref
+    q = inst.q
+    e1 = R.enc(R.mul(R.base(), 2 % q))
+    for k1, k2 in ((2 % q, 3 % q), (1, q - 1)):
+        if k1 == k2 or 0 in (k1, k2):
+            continue
+        for kind in ("bytearray", "memoryview"):
+            got = mutable_carrier_run(inst, k1, k2, kind)
+            acc.n(states=1, transitions=5)
+            acc.seen(("mutable-carrier", inst.name if not inst.small else inst.kind, kind, got[0]))
+            if got[0] == "refused":
+                continue
+            e = R.enc(R.mul(R.base(), k1))
+            want = ("decoded", ("ok", e), ("ok", e), ("ok", e), ("ok", True), ["bytes", "bytes"])
+            if got != want:
+                acc.violation("C15/%s/element-aliases-caller-buffer" % (inst.kind if inst.small else inst.name),
+                              {"what": "an element decoded from a %s changes its encoding (or its type / equality) when the caller reuses the buffer" % kind,
+                               "replay": {"fn": "mutable-carrier", "name": inst.name, "k1": k1, "k2": k2, "kind": kind}, "expected": want, "observed": got})
+
+
 def _group_task(task):
     name, seed = task
     acc = Acc()
@@ -169,6 +208,7 @@ def _group_task(task):
         else:
             acc.degrade("%s unavailable: %s: %s" % (name, type(e).__name__, e))
         return acc
+    _mutable_carriers(inst, acc)
     if inst.small:
         _group_codecs(inst, list(range(inst.q)), acc, True)
     else:
@@ -208,6 +248,8 @@ def replay(rec):
     fn = r["fn"]
     if fn == "group":
         return T.observe(lambda: T.get_group(r["name"]) and "group")
+    if fn == "mutable-carrier":
+        return mutable_carrier_run(T.get_group(r["name"]), r["k1"], r["k2"], r["kind"])
     if fn == "n2b":
         return T.observe(L.util.number_to_bytes, r["n"], r["maxval"])
     if fn == "b2n":
